@@ -5,6 +5,7 @@ import fn_flat as ff
 PID = "C11"
 MODEL_TARGETS = ["Generated", "FlatLine"]
 PROPS_TARGETS = ["Props_C11"]
+SUPPORT_TARGETS = ["FloatExact"]
 TRUSTED_BASE = ["modelled, not verified: np.median of timedelta64 (even counts average the middle pair), the ns->s floor "
                 "cast, (int(thr)/float).astype(int) truncation, np.lib.stride_tricks.as_strided of a masked array "
                 "(raw data, NaN at missing), masked min/max ignoring masked entries, np.ma.filled(.., False), np.insert"]
